@@ -66,6 +66,8 @@ type rSetting struct {
 }
 
 type rQuery struct {
+	span                                    *[24]byte // OpenTelemetry trace id + span id of the caller's span (nil: none)
+	spanFlags                               byte
 	id, body, secret, quotaKey, initialUser string
 	compression                             bool
 	settings                                []rSetting
@@ -117,7 +119,19 @@ func (r *rb) query(q rQuery, v int) {
 			r.vint(q.patch)
 		}
 		if v >= rOpenTelemetry {
-			r.u8(0)
+			if q.span != nil {
+				// ids as 64-bit words, each byte-reversed; empty trace state; the flags byte as it is
+				r.u8(1)
+				for w := 0; w < 3; w++ {
+					for i := 7; i >= 0; i-- {
+						r.u8(q.span[w*8+i])
+					}
+				}
+				r.str("")
+				r.u8(q.spanFlags)
+			} else {
+				r.u8(0)
+			}
 		}
 		if v >= rParallelRepl {
 			r.vint(0)
